@@ -264,7 +264,7 @@ namespace c14
   {
     Q.assign(ms.size(), 0.0L); A.assign(ms.size(), 0.0L);
     int maxe = 0; for(auto& m : ms) for(int i = 0; i < 3; ++i) maxe = std::max(maxe, m.a[i]);
-    const int d = p.d, E = maxe + 1; const long B = 1024;
+    const int d = p.d, E = maxe + 1; const long B = 128;
     std::vector<long double> pw((size_t)B * d * E);
     for(long k0 = 0; k0 < p.n; k0 += B)
     {
@@ -392,19 +392,21 @@ namespace c14
     check_exact(c, pl.shape, m.p, ms, pl.flt, deg);
   }
 
-  inline void t_enum(Tape& t, Ctx& c)
+  inline void t_enum(Tape& t, Ctx& c, int k0)
   {
     harness_ok(c);
     const Names& N = names(); const int total = (int)N.all.size();
-    const long sizes = env_long("C14_ENUM_SIZES", 0), kmax = env_long("C14_ENUM_KMAX", 0), budget = env_long("C14_BUDGET", 200000000);
-    if(sizes > 0 && (kmax + 1) * total > sizes) { c.op = "harness"; c.announce(); VF_FAIL("harness:name space has " << total << " names, props enumerate only " << sizes << " sizes for refine counts 0.." << kmax); }
-    int k = t.size / total, idx = t.size % total;
+    const long sizes = env_long("C14_ENUM_SIZES", 0), budget = env_long("C14_BUDGET", 200000000);
+    if(sizes > 0 && total > sizes) { c.op = "harness"; c.announce(); VF_FAIL("harness:name space has " << total << " names, props enumerate only " << sizes << " sizes (raise max_size/cases/C14_ENUM_SIZES)"); }
+    // the sweep of refine count k0 is its own target so that the sweeps run in parallel; sizes beyond the name space give generated extras
+    int k = k0, idx = t.size % total;
     bool generated = false;
-    if(k > 3) { k = 1 + t.range(0, 2); idx = t.range(0, total - 1); generated = true; }
+    if(t.size >= total) { k = t.range(0, 3); idx = t.range(0, total - 1); generated = true; }
     int shape = N.all[idx].first, ei = N.all[idx].second;
     if(entry_excluded(c, shape, N.ent[shape][ei])) { ei = pick_entry(c, shape, ei + 1 + t.range(0, 40)); generated = true; }
     if(shape == SC && k > 0) { k = 0; generated = true; }    // the scalar factory has no refine prefix
     const Entry& e = N.ent[shape][ei];
+    if(generated) { long base = points_bound(shape, e); while(k > 0) { long n = base; for(int i = 0; i < k; ++i) n *= refine_count(shape); if(n <= 300000) break; --k; } }
     Plan pl{shape, &e, k, refine_prefix(k) + e.name, R_STATIC, false, false};
     c.desc.set("shape", shape_name(shape)); c.desc.set("name", pl.req); c.desc.set("nominal_degree", e.degree); c.desc.set("mode", generated ? "substitute" : "sweep");
     c.label(std::string("shape:") + shape_name(shape)); c.label("refine:" + std::to_string(k));
@@ -590,9 +592,6 @@ namespace c14
     return nullptr;
   }
 
-  // ------------------------------------------------------------------------------------------------------------------
-  // target names: mutated names (by construction) and token soup; unknown names must be refused on every route
-  // ------------------------------------------------------------------------------------------------------------------
   inline const std::vector<std::string>& soup_tokens()
   {
     static const std::vector<std::string> T = {
@@ -603,6 +602,55 @@ namespace c14
     return T;
   }
 
+  /// steer away from switched-off known-finding classes, describe the case, run the request, judge the answer with the model
+  inline void judge_request(Ctx& c, int shape, std::string req, int route, const std::string& cname)
+  {
+    Model M = classify(shape, req);
+    // never hand feat3 a request whose honest answer is astronomically large (refine*k multiplies the points by 2^(d*k))
+    if(M.k > 3) { req = "refine*x:" + req; M = classify(shape, req); }
+    if(M.v == V_JUNK && c.excl("c14-param-junk")) { req = "?" + req; M = classify(shape, req); }
+    if(M.v == V_NEGREFINE && c.excl("c14-refine-negcount")) { req = "x" + req; M = classify(shape, req); }
+    if(M.e && entry_excluded(c, shape, *M.e)) { req = "x" + req; M = classify(shape, req); }
+    static const char* vn[] = {"known", "unknown", "lenient", "junk", "neg-refine"};
+    c.desc.set("shape", shape_name(shape)); c.desc.set("name", req); c.desc.set("class", cname); c.desc.set("model", vn[M.v]); if(!M.why.empty()) c.desc.set("why", M.why);
+    c.desc.set("route", route_name(route));
+    c.label(std::string("shape:") + shape_name(shape)); c.label("class:" + cname); c.label(std::string("model:") + vn[M.v]); c.label(std::string("route:") + route_name(route));
+    // non-trivial: a near miss (mentions a driver, alias or prefix keyword of some shape), not pure garbage
+    { std::string lo = lower(req); bool near = false; const auto& T = soup_tokens(); for(size_t j = 1; j < 32; ++j) if(lo.find(lower(T[j])) != std::string::npos) near = true; c.nontrivial = near; }
+    c.op = (M.v == V_UNKNOWN || M.v == V_JUNK || M.v == V_NEGREFINE) ? "refuse" : "accept";
+    c.announce();
+
+    if(M.v == V_NEGREFINE)
+    {
+      // "refine*-1:<valid>" is not a name of any rule; the honest reactions are a refusal or - at worst - treating it like
+      // refine*0.  Run it under an address-space limit in a grand-child: the pinned tree parses -1 into an unsigned count.
+      std::string err; std::string how = vf::run_isolated([&] { struct rlimit rl { 1ul << 29, 1ul << 29 }; setrlimit(RLIMIT_AS, &rl); Made m = make(shape, req, route, false); if(m.ok) _exit(7); }, &err, 15000);
+      C14_CHECK("accepted", how == "", "negative refine count '" << req << "' on " << shape_name(shape) << " via " << route_name(route) << " is not refused: " << (how == "exit7" ? std::string("answered with a rule") : how + " " + vf::first_line_with(err, "EXC")));
+      return;
+    }
+    Made m = make(shape, req, route, false);
+    if(M.v == V_UNKNOWN || M.v == V_JUNK)
+    {
+      C14_CHECK("accepted", !m.ok, "unknown name '" << req << "' (" << M.why << ") on " << shape_name(shape) << " via " << route_name(route) << " is answered with rule '" << m.p.name << "' (" << m.p.n << " points)");
+      C14_CHECK("touched", m.untouched, "refused name '" << req << "' still modified the rule object");
+      if(route >= R_THROW && shape != SC) C14_CHECK("noexcept", !m.refusal.empty(), "refusal of '" << req << "' did not raise UnknownRule");
+      return;
+    }
+    if(!m.ok) { if(M.v == V_KNOWN) VF_FAIL("refused:advertised name '" << req << "' refused on " << shape_name(shape) << " via " << route_name(route)); C14_CHECK("touched", m.untouched, "refused name '" << req << "' still modified the rule object"); return; }
+    // accepted (known or lenient): it must be the rule the reading denotes, resp. some rule of the name space that keeps its promise
+    int kr = 0; const Entry* re = entry_of_resolved(shape, m.p.name, kr);
+    C14_CHECK("resolve", re != nullptr, "'" << req << "' on " << shape_name(shape) << " answered with '" << m.p.name << "', which is no rule of the name space");
+    if(M.e && !M.e->canon.empty()) C14_CHECK("resolve", m.p.name == refine_prefix(M.k) + M.e->canon, "'" << req << "' on " << shape_name(shape) << " answered with rule '" << m.p.name << "', expected '" << refine_prefix(M.k) + M.e->canon << "'");
+    int deg = re->degree; if(M.e) deg = std::max(deg, M.e->degree);
+    if(kf_switch(shape, re->canon) && c.excl(kf_switch(shape, re->canon))) return;
+    std::vector<Mono> ms = monomials(m.p.d, 0, deg);
+    if(m.p.n * (long)ms.size() > 50000000) ms.resize(std::max<size_t>(1, 50000000 / m.p.n));
+    check_exact(c, shape, m.p, ms, false, deg);
+  }
+
+  // ------------------------------------------------------------------------------------------------------------------
+  // target names: mutated names (by construction) and token soup; unknown names must be refused on every route
+  // ------------------------------------------------------------------------------------------------------------------
   inline void t_names(Tape& t, Ctx& c)
   {
     harness_ok(c);
@@ -610,13 +658,12 @@ namespace c14
     int shape = pick_shape(t);
     const auto& E = N.ent[shape]; const Space& sp = N.sp[shape];
     std::vector<const Drv*> var; for(auto& d : sp.drv) if(d.variadic) var.push_back(&d);
-    const bool no_junk = c.excl("c14-param-junk"), no_neg = c.excl("c14-refine-negcount");
     // a valid base to mutate (never one of the switched-off table typos: an accepted lenient spelling would re-find them)
     auto valid = [&]() -> const Entry& { return E[pick_entry(c, shape, t.range(0, (int)E.size() - 1))]; };
     auto rpre = [&]() -> std::string { return shape == SC ? "" : refine_prefix(t.pick({5, 2, 1})); };
 
     int cls = t.pick({3, 3, 2, 3, 3, 2, 2, 2, 3, 2});
-    if(cls == 6 && no_junk) cls = 0;
+    if(cls == 6 && c.excl("c14-param-junk")) cls = 0;
     std::string req, cname;
     switch(cls)
     {
@@ -666,7 +713,7 @@ namespace c14
         switch(t.pick({3, 2, 1, 1, 2, 1, 1, 1, 3})) {
           case 0: req = "refine*0:" + e.name; break; case 1: req = "refine*x:" + e.name; break; case 2: req = "refine*:" + e.name; break; case 3: req = t.flag() ? "refine:" : "refine"; break;
           case 4: req = "refine:" + refine_prefix(1 + t.range(0, 1)) + e.name; break; case 5: req = "refine*2*2:" + e.name; break; case 6: req = "refinex:" + e.name; break; case 7: req = "refine*2" + e.name; break;
-          default: if(no_neg) req = "refine*+1:" + e.name; else req = "refine*-" + std::to_string(1 + t.range(0, 2)) + ":" + e.name; break; }
+          default: if(c.excl("c14-refine-negcount")) req = "refine*+1:" + e.name; else req = "refine*-" + std::to_string(1 + t.range(0, 2)) + ":" + e.name; break; }
         break;
       }
     case 5: // malformed / out-of-range auto alias
@@ -711,55 +758,27 @@ namespace c14
       }
     }
 
-    Model M = classify(shape, req);
-    // never hand feat3 a request whose honest answer is astronomically large (refine*k multiplies the points by 2^(d*k))
-    if(M.k > 3) { req = "refine*x:" + req; M = classify(shape, req); }
-    if(M.v == V_JUNK && no_junk) { req = "?" + req; M = classify(shape, req); }
-    if(M.v == V_NEGREFINE && no_neg) { req = "x" + req; M = classify(shape, req); }
-    if(M.e && entry_excluded(c, shape, *M.e)) { req = "x" + req; M = classify(shape, req); }
-    static const char* vn[] = {"known", "unknown", "lenient", "junk", "neg-refine"};
-    int route = t.range(0, NROUTES - 1);
-    c.desc.set("shape", shape_name(shape)); c.desc.set("name", req); c.desc.set("class", cname); c.desc.set("model", vn[M.v]); if(!M.why.empty()) c.desc.set("why", M.why);
-    c.desc.set("route", route_name(route));
-    c.label(std::string("shape:") + shape_name(shape)); c.label("class:" + cname); c.label(std::string("model:") + vn[M.v]); c.label(std::string("route:") + route_name(route));
-    // non-trivial: a near miss (mentions a driver, alias or prefix keyword of some shape), not pure garbage
-    { std::string lo = lower(req); bool near = false; const auto& T = soup_tokens(); for(size_t j = 1; j < 32; ++j) if(lo.find(lower(T[j])) != std::string::npos) near = true; c.nontrivial = near; }
-    c.op = (M.v == V_UNKNOWN || M.v == V_JUNK || M.v == V_NEGREFINE) ? "refuse" : "accept";
-    c.announce();
+    judge_request(c, shape, req, t.range(0, NROUTES - 1), cname);
+  }
 
-    if(M.v == V_NEGREFINE)
-    {
-      // "refine*-1:<valid>" is not a name of any rule; the honest reactions are a refusal or - at worst - treating it like
-      // refine*0.  Run it under an address-space limit in a grand-child: the pinned tree parses -1 into an unsigned count.
-      std::string err; std::string how = vf::run_isolated([&] { struct rlimit rl { 1ul << 29, 1ul << 29 }; setrlimit(RLIMIT_AS, &rl); Made m = make(shape, req, route, false); if(m.ok) _exit(7); }, &err, 15000);
-      C14_CHECK("accepted", how == "", "negative refine count '" << req << "' on " << shape_name(shape) << " via " << route_name(route) << " is not refused: " << (how == "exit7" ? std::string("answered with a rule") : how + " " + vf::first_line_with(err, "EXC")));
-      return;
-    }
-    Made m = make(shape, req, route, false);
-    if(M.v == V_UNKNOWN || M.v == V_JUNK)
-    {
-      C14_CHECK("accepted", !m.ok, "unknown name '" << req << "' (" << M.why << ") on " << shape_name(shape) << " via " << route_name(route) << " is answered with rule '" << m.p.name << "' (" << m.p.n << " points)");
-      C14_CHECK("touched", m.untouched, "refused name '" << req << "' still modified the rule object");
-      if(route >= R_THROW && shape != SC) C14_CHECK("noexcept", !m.refusal.empty(), "refusal of '" << req << "' did not raise UnknownRule");
-      return;
-    }
-    if(!m.ok) { if(M.v == V_KNOWN) VF_FAIL("refused:advertised name '" << req << "' refused on " << shape_name(shape) << " via " << route_name(route)); C14_CHECK("touched", m.untouched, "refused name '" << req << "' still modified the rule object"); return; }
-    // accepted (known or lenient): it must be the rule the reading denotes, resp. some rule of the name space that keeps its promise
-    int kr = 0; const Entry* re = entry_of_resolved(shape, m.p.name, kr);
-    C14_CHECK("resolve", re != nullptr, "'" << req << "' on " << shape_name(shape) << " answered with '" << m.p.name << "', which is no rule of the name space");
-    if(M.e && !M.e->canon.empty()) C14_CHECK("resolve", m.p.name == refine_prefix(M.k) + M.e->canon, "'" << req << "' on " << shape_name(shape) << " answered with rule '" << m.p.name << "', expected '" << refine_prefix(M.k) + M.e->canon << "'");
-    int deg = re->degree; if(M.e) deg = std::max(deg, M.e->degree);
-    if(kf_switch(shape, re->canon) && c.excl(kf_switch(shape, re->canon))) return;
-    std::vector<Mono> ms = monomials(m.p.d, 0, deg);
-    if(m.p.n * (long)ms.size() > 50000000) ms.resize(std::max<size_t>(1, 50000000 / m.p.n));
-    check_exact(c, shape, m.p, ms, false, deg);
+  /// one literal request: tape = [shape, route, length, characters...] (regression replays that do not depend on the enumeration order)
+  inline void t_byname(Tape& t, Ctx& c)
+  {
+    harness_ok(c);
+    int shape = t.range(0, NSHAPES - 1), route = t.range(0, NROUTES - 1), len = t.range(0, 80);
+    std::string req; for(int i = 0; i < len; ++i) req += char(32 + t.range(0, 94));
+    judge_request(c, shape, req, route, "literal");
   }
 
   inline int run_main(int argc, char** argv, const char* sfx)
   {
     FEAT::Runtime::ScopeGuard guard(argc, argv);
     std::vector<vf::Target> tg;
-    tg.push_back({std::string("enum") + sfx, t_enum, 64, 0, 180000});
+    tg.push_back({std::string("enum") + sfx, [](Tape& t, Ctx& c) { t_enum(t, c, 0); }, 64, 0, 180000});
+    tg.push_back({std::string("enum_r1") + sfx, [](Tape& t, Ctx& c) { t_enum(t, c, 1); }, 64, 0, 180000});
+    tg.push_back({std::string("enum_r2") + sfx, [](Tape& t, Ctx& c) { t_enum(t, c, 2); }, 64, 0, 180000});
+    tg.push_back({std::string("enum_r3") + sfx, [](Tape& t, Ctx& c) { t_enum(t, c, 3); }, 64, 0, 180000});
+    tg.push_back({std::string("byname") + sfx, t_byname, 96, 0, 180000});
     tg.push_back({std::string("poly") + sfx, t_poly, 160, 0, 60000});
     tg.push_back({std::string("names") + sfx, t_names, 64, 0, 30000});
     return vf::main_impl(argc, argv, tg);
